@@ -21,8 +21,6 @@ use grin_util::ToHex;
 use proptest::prelude::*;
 use serde_derive::{Deserialize, Serialize};
 use serde_json::{json, Value};
-use std::collections::BTreeMap;
-use std::sync::Mutex;
 
 // =====================================================================
 // Reference model. All constants are written out here from the protocol
@@ -193,6 +191,135 @@ pub fn ref_next(ct: Ct, height: u64, w: &[Entry]) -> RefOut {
 	}
 }
 
+
+// ---------------------------------------------------------------------
+// Reference proof-of-work check (Cuckatoo cycle from its definition), so
+// that the verdict for every mutant is derived and never assumed: a proof
+// that was mined for other bytes / another graph size can still be a cycle.
+// ---------------------------------------------------------------------
+
+fn r_sipround(v: &mut [u64; 4]) {
+	v[0] = v[0].wrapping_add(v[1]);
+	v[2] = v[2].wrapping_add(v[3]);
+	v[1] = v[1].rotate_left(13);
+	v[3] = v[3].rotate_left(16);
+	v[1] ^= v[0];
+	v[3] ^= v[2];
+	v[0] = v[0].rotate_left(32);
+	v[2] = v[2].wrapping_add(v[1]);
+	v[0] = v[0].wrapping_add(v[3]);
+	v[1] = v[1].rotate_left(17);
+	v[3] = v[3].rotate_left(21);
+	v[1] ^= v[2];
+	v[3] ^= v[0];
+	v[2] = v[2].rotate_left(32);
+}
+
+/// SipHash-2-4 of one 64-bit word, the four key words used as the initial state
+fn r_siphash24(k: &[u64; 4], x: u64) -> u64 {
+	let mut v = *k;
+	v[3] ^= x;
+	r_sipround(&mut v);
+	r_sipround(&mut v);
+	v[0] ^= x;
+	v[2] ^= 0xff;
+	for _ in 0..4 {
+		r_sipround(&mut v);
+	}
+	v[0] ^ v[1] ^ v[2] ^ v[3]
+}
+
+/// the bytes the proof of work commits to: every header field in order, big endian, up to and including the nonce
+fn ref_pre_pow(h: &BlockHeader) -> Vec<u8> {
+	let mut b: Vec<u8> = vec![];
+	b.extend_from_slice(&h.version.0.to_be_bytes());
+	b.extend_from_slice(&h.height.to_be_bytes());
+	b.extend_from_slice(&h.timestamp.timestamp().to_be_bytes());
+	for x in [&h.prev_hash, &h.prev_root, &h.output_root, &h.range_proof_root, &h.kernel_root] {
+		b.extend_from_slice(&x.to_vec());
+	}
+	b.extend_from_slice(h.total_kernel_offset.as_ref());
+	b.extend_from_slice(&h.output_mmr_size.to_be_bytes());
+	b.extend_from_slice(&h.kernel_mmr_size.to_be_bytes());
+	b.extend_from_slice(&h.pow.total_difficulty.to_num().to_be_bytes());
+	b.extend_from_slice(&h.pow.secondary_scaling.to_be_bytes());
+	b.extend_from_slice(&h.pow.nonce.to_be_bytes());
+	b
+}
+
+/// AutomatedTesting: 8 edges, strictly ascending, below 2^edge_bits with 10 <= edge_bits
+/// (29 is the "secondary" size, also >= 10), forming one 8-cycle in the bipartite graph
+/// whose edge n joins u = sip(2n) and v = sip(2n+1) (masked to edge_bits bits) and where
+/// two edges meet when their endpoints on one side differ exactly in the lowest bit.
+fn ref_cycle_ok(h: &BlockHeader) -> bool {
+	let e = h.pow.proof.edge_bits as u32;
+	let nonces = &h.pow.proof.nonces;
+	if e < 10 || e > 63 || nonces.len() != 8 {
+		return false;
+	}
+	let mask = (1u64 << e) - 1;
+	if nonces.iter().any(|n| *n > mask) || nonces.windows(2).any(|w| w[1] <= w[0]) {
+		return false;
+	}
+	let d = refmmr::blake(&[&ref_pre_pow(h)]);
+	let mut k = [0u64; 4];
+	for i in 0..4 {
+		let mut w = [0u8; 8];
+		w.copy_from_slice(&d[8 * i..8 * i + 8]);
+		k[i] = u64::from_le_bytes(w);
+	}
+	let side: [Vec<u64>; 2] = [
+		nonces.iter().map(|n| r_siphash24(&k, 2 * n) & mask).collect(),
+		nonces.iter().map(|n| r_siphash24(&k, 2 * n + 1) & mask).collect(),
+	];
+	// the unique other edge meeting edge i on side s
+	let mut partner = [[usize::MAX; 8]; 2];
+	for s in 0..2 {
+		for i in 0..8 {
+			let same_pair: Vec<usize> = (0..8).filter(|&j| j != i && side[s][j] >> 1 == side[s][i] >> 1).collect();
+			if same_pair.len() != 1 || side[s][same_pair[0]] == side[s][i] {
+				return false;
+			}
+			partner[s][i] = same_pair[0];
+		}
+	}
+	let (mut cur, mut steps) = (0usize, 0usize);
+	loop {
+		cur = partner[1][partner[0][cur]];
+		steps += 2;
+		if cur == 0 || steps > 8 {
+			break;
+		}
+	}
+	cur == 0 && steps == 8
+}
+
+/// difficulty a proof is worth: graph weight * 2^64 / (first 8 bytes, big endian, of blake2b
+/// over the nonces packed at edge_bits bits each, little endian), capped to 64 bits
+fn ref_pow_difficulty(h: &BlockHeader) -> u128 {
+	let e = h.pow.proof.edge_bits as usize;
+	let mut packed = vec![0u8; (e * 8 + 7) / 8];
+	for (i, n) in h.pow.proof.nonces.iter().enumerate() {
+		for b in 0..e {
+			if (n >> b) & 1 == 1 {
+				let pos = i * e + b;
+				packed[pos / 8] |= 1 << (pos % 8);
+			}
+		}
+	}
+	let d = refmmr::blake(&[&packed]);
+	let mut w = [0u8; 8];
+	w.copy_from_slice(&d[..8]);
+	let hash = std::cmp::max(1, u64::from_be_bytes(w)) as u128;
+	// AutomatedTesting base graph is 2^10 edges; 29 bits is scaled by the header's own factor
+	let weight: u128 = if e == 29 { h.pow.secondary_scaling as u128 } else { (2u128 << (e - 10)) * e as u128 };
+	std::cmp::max(1, std::cmp::min((weight << 64) / hash, u64::MAX as u128))
+}
+
+fn ref_pow_ok(h: &BlockHeader, needed: u64) -> bool {
+	ref_cycle_ok(h) && ref_pow_difficulty(h) >= needed as u128
+}
+
 fn mmr_size(leaves: u64) -> u64 {
 	2 * leaves - leaves.count_ones() as u64
 }
@@ -209,9 +336,6 @@ fn err_variant(s: &str) -> String {
 	s.chars().take_while(|c| c.is_alphanumeric() || *c == '_').collect()
 }
 
-lazy_static::lazy_static! {
-	static ref REASONS: Mutex<BTreeMap<String, u64>> = Mutex::new(BTreeMap::new());
-}
 
 // =====================================================================
 // Part A
@@ -435,12 +559,18 @@ fn mutants(t: &BlockHeader, q: &BlockHeader, other: Option<Hash>, salt: u64) -> 
 	for (k, h, target, accept) in pre {
 		// raw variant: the proof no longer belongs to the header bytes (for
 		// CtlRemine this is the "nonce changed without re-mining" case)
+		// The verdict is derived: valid iff the field change keeps every other rule
+		// satisfied (`accept`) AND the proof is a cycle for these bytes worth >= d
+		// under the reference (for a stale proof that is astronomically unlikely, but
+		// it is computed, not assumed).
 		if k != Kind::CtlRemine {
-			out.push(Mutant::new(k, false, h.clone(), false));
+			let ok = accept && ref_pow_ok(&h, d);
+			out.push(Mutant::new(k, false, h.clone(), ok));
 		}
 		let mut r = h;
 		remine(&mut r, target)?;
-		out.push(Mutant::new(k, true, r, accept));
+		let ok = accept && ref_pow_ok(&r, d);
+		out.push(Mutant::new(k, true, r, ok));
 	}
 	// a genuine cycle that does not reach the network difficulty (every AutomatedTesting
 	// solution is worth at least the graph weight 20, so only where d > 20)
@@ -450,17 +580,23 @@ fn mutants(t: &BlockHeader, q: &BlockHeader, other: Option<Hash>, salt: u64) -> 
 		for _ in 0..800 {
 			remine(&mut h, 1)?;
 			if h.pow.to_difficulty(h.height).to_num() < d {
-				out.push(Mutant::new(Kind::PowBelowTarget, true, h.clone(), false));
+				let ok = ref_pow_ok(&h, d);
+				out.push(Mutant::new(Kind::PowBelowTarget, true, h.clone(), ok));
 				break;
 			}
 			h.pow.nonce = h.pow.nonce.wrapping_add(1);
 		}
 	}
-	// proof-of-work fields themselves
+	// proof-of-work fields themselves: no other rule is touched, so the mutant is valid
+	// exactly when the reference finds a cycle worth >= d. edge_bits is not part of the
+	// bytes the proof commits to, and a Cuckatoo10 cycle is also a cycle of the
+	// (10+k)-bit graph with probability about 2^-8k (measured 167/40000 for k=1): such a
+	// header is legitimately valid and must then be ACCEPTED.
 	let mut raw = |k: Kind, f: &dyn Fn(&mut BlockHeader)| {
 		let mut h = t.clone();
 		f(&mut h);
-		out.push(Mutant::new(k, false, h, false));
+		let ok = ref_pow_ok(&h, d);
+		out.push(Mutant::new(k, false, h, ok));
 	};
 	raw(Kind::Nonce, &|h| h.pow.nonce = h.pow.nonce.wrapping_add(bump));
 	let low = 1 + (mix(salt, 10) % 9) as u8;
@@ -471,7 +607,9 @@ fn mutants(t: &BlockHeader, q: &BlockHeader, other: Option<Hash>, salt: u64) -> 
 		}
 	});
 	raw(Kind::EdgeBits29, &|h| h.pow.proof.edge_bits = 29);
-	raw(Kind::EdgeBitsHigh, &|h| h.pow.proof.edge_bits = 11 + (mix(salt, 11) % 17) as u8);
+	// half of the time 11 bits, where about 1 in 250 of these mutants is a genuine cycle
+	let high = if mix(salt, 11) % 2 == 0 { 11 } else { 12 + (mix(salt, 14) % 16) as u8 };
+	raw(Kind::EdgeBitsHigh, &|h| h.pow.proof.edge_bits = high);
 	let which = (mix(salt, 12) % t.pow.proof.nonces.len() as u64) as usize;
 	raw(Kind::ProofNonce, &|h| {
 		h.pow.proof.nonces[which] ^= 1 << (mix(salt, 13) % 10);
@@ -536,6 +674,14 @@ fn build_chain(ctx: &Ctx, recipe: &[(u16, u8)], tag: &str) -> Result<(ChainBox, 
 			h,
 			b.header.prev_root,
 			Hash::from_vec(&root)
+		);
+		ensure!(
+			ref_pow_ok(&b.header, inc),
+			"accepted-pow-invalid-under-reference",
+			"height {}: mined header's proof is not a cycle worth >= {} under the reference: {:?}",
+			h,
+			inc,
+			b.header
 		);
 		match catch(|| src.c().process_block(b.clone(), Options::NONE)) {
 			Ok(Ok(Some(_))) => {}
@@ -721,6 +867,7 @@ pub fn check_a(ctx: &Ctx, case: &CaseA, counting: bool, at: &mut Option<Only>) -
 			let mut a = anc.clone();
 			a.push(bad.clone());
 			let mut m = Mutant::new(Kind::SyncMidChunkPrevRoot, true, child_of(&a, &template, xdt, None)?, false);
+			m.stage = 0;
 			m.paths = Some(vec![Path::Sync]);
 			m.pre = vec![bad];
 			ms.push(m);
@@ -741,7 +888,8 @@ pub fn check_a(ctx: &Ctx, case: &CaseA, counting: bool, at: &mut Option<Only>) -
 				w.paths = Some(vec![Path::Header, Path::Sync]);
 				ms.push(w);
 			}
-			let mut m = Mutant::new(Kind::ForkChild, true, good, true);
+			let ok = ref_pow_ok(&good, own as u64);
+			let mut m = Mutant::new(Kind::ForkChild, true, good, ok);
 			m.stage = 2;
 			m.paths = Some(vec![Path::Header, Path::Sync]);
 			ms.push(m);
@@ -786,17 +934,35 @@ pub fn check_a(ctx: &Ctx, case: &CaseA, counting: bool, at: &mut Option<Only>) -
 					let body_before = cb.c().head().map_err(|e| Fail::new("head-err", format!("{:?}", e)))?;
 					let mut chunk_pre: Vec<BlockHeader> = if path == Path::Sync && pass < 2 { tail.clone() } else { vec![] };
 					chunk_pre.extend(m.pre.iter().cloned());
+					// A header hashes to its proof bytes only. If the receiver already stores a
+					// DIFFERENT header under the mutant's hash, grin treats the mutant as
+					// "already known": whatever the call returns, the only sound expectation is
+					// that the stored header and the heads stay as they are.
+					let shadow = cb.c().get_block_header(&m.header.hash()).ok().filter(|s| *s != m.header);
 					let res = deliver(path, cb, &m.header, &chunk_pre, &blocks[p - 1])?;
 					let after = hh(cb)?;
 					let label = format!("{:?}:{}:{:?}", m.kind, if m.remined { "remined" } else { "raw" }, path);
 					let what = format!("chain of {} blocks, mutated height {} ({}), {}", n, p, era, label);
+					if let Some(stored) = shadow {
+						ensure!(after == before, format!("head-moved-on-reject:{}", label), "{}: header_head moved by a header whose hash was already known", what);
+						ensure!(
+							cb.c().get_block_header(&m.header.hash()).ok().as_ref() == Some(&stored),
+							"known-header-replaced-by-mutant",
+							"{}: the header stored under this hash changed",
+							what
+						);
+						if counting {
+							ev.eval();
+							ev.class("A:mutant_hash_already_known");
+						}
+						continue;
+					}
 					if !m.accept {
 						match &res {
 							Ok(()) => fail!(format!("mutant-accepted:{}", label), "{}: accepted; true header {:?} mutant {:?}", what, t, m.header),
 							Err(e) => {
 								if counting {
-									let key = format!("{:?}/{}/{:?} -> {}", m.kind, if m.remined { "remined" } else { "raw" }, path, err_variant(e));
-									*REASONS.lock().unwrap().entry(key).or_insert(0) += 1;
+									ev.class(&format!("A:refused:{:?}:{} -> {}", m.kind, if m.remined { "remined" } else { "raw" }, err_variant(e)));
 								}
 							}
 						}
@@ -842,6 +1008,10 @@ pub fn check_a(ctx: &Ctx, case: &CaseA, counting: bool, at: &mut Option<Only>) -
 							ev.nontrivial(&("A", m.kind, era.clone(), path));
 						} else {
 							ev.class("A:mutants_with_stale_pow");
+							if m.accept {
+								// e.g. a Cuckatoo10 cycle that is also a cycle of the bigger graph
+								ev.class(&format!("A:raw_mutant_valid_under_reference:{:?}", m.kind));
+							}
 						}
 					}
 				}
@@ -941,17 +1111,9 @@ fn era_range(ct: Ct, era: u8) -> (u64, u64) {
 	let s = ref_era_starts(ct);
 	let e = (era.clamp(1, 5) - 1) as usize;
 	let lo = if e == 0 { 1 } else { s[e] };
-	let hi = if e == 4 {
-		match ct {
-			// consensus.rs:149 casts 1 + height/3 to u16 *before* taking min(5, ..): from
-			// height 196_605 on the schedule wraps to versions 0..4. The random windows stay
-			// below; the wrap itself is reported by the directed probes in `run`.
-			Ct::AutomatedTesting | Ct::UserTesting => R_WRAP_TESTING,
-			_ => s[4] + 20_000_000,
-		}
-	} else {
-		s[e + 1]
-	};
+	// (heights past 196_605 on the testing chain types include the points where a 16-bit
+	// interval count would wrap - a repaired defect, also probed directly in `run`)
+	let hi = if e == 4 { s[4] + 20_000_000 } else { s[e + 1] };
 	(lo, hi) // [lo, hi)
 }
 
@@ -1224,13 +1386,14 @@ pub fn check_c(ctx: &Ctx, case: &CaseC, counting: bool) -> PResult {
 	let ftl = 300i64; // documented default future time limit: 5 minutes
 	ensure!(global::get_future_time_limit() as i64 == ftl, "harness:ftl", "future time limit is not the default");
 	let bound = 250 * (t.height + 1); // weight bound: max block weight per block so far
-	let mut accept = false;
+	// does the change keep the header inside the read-time policy?
+	let mut policy_ok = false;
 	match case.mutation {
-		CKind::Untouched => accept = true,
+		CKind::Untouched => policy_ok = true,
 		CKind::CtlRecentTimestamp => {
 			// within the limit by a margin of one hour
 			m.timestamp = DateTime::<Utc>::from_timestamp(now + ftl - 3600 - (case.param % 100_000) as i64, 0).unwrap();
-			accept = case.remine;
+			policy_ok = true;
 		}
 		CKind::TsFuture => {
 			m.timestamp = DateTime::<Utc>::from_timestamp(now + ftl + 3600 + (case.param % 1_000_000_000) as i64, 0).unwrap();
@@ -1246,7 +1409,11 @@ pub fn check_c(ctx: &Ctx, case: &CaseC, counting: bool) -> PResult {
 				*n &= (1u64 << e) - 1;
 			}
 		}
-		CKind::EdgeBits29 => m.pow.proof.edge_bits = 29,
+		CKind::EdgeBits29 => {
+			// the "secondary" size is allowed by the edge-bits policy; what remains is the cycle itself
+			m.pow.proof.edge_bits = 29;
+			policy_ok = true;
+		}
 		CKind::OutSize => {
 			// smallest leaf count whose weight (21 each, kernels 3 each) exceeds the bound, plus a bit
 			let k = t.height; // kernels so far
@@ -1262,7 +1429,7 @@ pub fn check_c(ctx: &Ctx, case: &CaseC, counting: bool) -> PResult {
 			let k = t.height;
 			let l = (bound - 3 * k) / 21; // largest output count within the bound
 			m.output_mmr_size = mmr_size(l);
-			accept = case.remine;
+			policy_ok = true;
 		}
 	}
 	let pow_fields = matches!(case.mutation, CKind::EdgeBits | CKind::EdgeBits29 | CKind::Untouched);
@@ -1270,6 +1437,9 @@ pub fn check_c(ctx: &Ctx, case: &CaseC, counting: bool) -> PResult {
 	if remined {
 		remine(&mut m, 1)?;
 	}
+	// derived verdict: decodes iff inside the policy and the proof is a cycle for these
+	// bytes under the reference (read time does not look at the difficulty)
+	let accept = policy_ok && ref_cycle_ok(&m);
 	let bytes = catch(|| ser::ser_vec(&m, ProtocolVersion(1)))?.map_err(|e| Fail::new("harness:ser", format!("{:?}", e)))?;
 	let res = catch(|| ser::deserialize::<UntrustedBlockHeader, _>(&mut &bytes[..], ProtocolVersion(1), DeserializationMode::default()))?;
 	let label = format!("{:?}:{}", case.mutation, if remined { "remined" } else { "raw" });
@@ -1327,8 +1497,8 @@ pub fn run(ctx: &Ctx) -> HResult<()> {
 	ev.rule("B: windows as DifficultyIter yields them (newest first, strictly increasing time, 1<=n<=min(height,70) before HF4, n>=2 after), all four chain types, every header-version era, heights at era starts/ends; result compared with a u128 reference, minimum, clamp/damping bounds, determinism, monotonicity in the newest timestamp; header_version compared with the reference schedule. non-trivial = window shorter than 61 or height within 3 of an era boundary; distinct by (chain type, era, window-length class, boundary, at-minimum, clamp-active)");
 	ev.rule("C: valid mined headers re-encoded with one field out of read-time policy (re-mined so that only that policy can refuse) must fail UntrustedBlockHeader decoding; untouched / in-policy controls decode to the same header");
 	ev.assume("blake2b (blake2-rfc) trusted; the reference retarget, version schedule and MMR are the harness's own; PoW mining uses grin's own pow_size (cuckatoo solver) and mmr sizes use the closed form 2n-popcount(n)");
-	ev.assume("a stale proof verifying against changed header bytes by chance (an 8-cycle among 8 fixed edges of a fresh 2^10 graph) is treated as impossible");
-	ev.assume("B: timestamps >= 10^9 so the pre-genesis padding never saturates at 0 (global.rs:510 saturating_sub); secondary_scaling < 2^31 so that the scaling result fits the u32 it is cast to (consensus.rs:416); random heights on AutomatedTesting/UserTesting stay below 196605 where consensus.rs:149 truncates the interval count to u16 - that wrap is covered by directed probes instead");
+	ev.assume("the verdict of every mutant is derived: valid iff its field change keeps the non-PoW rules AND the reference Cuckatoo check (own siphash-2-4, own header byte layout, own nonce packing) finds an 8-cycle worth the network difficulty for the mutant's bytes and edge_bits; a mutant whose hash is already stored under a different header is only required to leave store and heads untouched");
+	ev.assume("B: timestamps >= 10^9 so the pre-genesis padding never saturates at 0 (global.rs:510 saturating_sub); secondary_scaling < 2^31 so that the scaling result fits the u32 it is cast to (consensus.rs:416)");
 
 	// coinbase universe: key = height*4+k
 	let cbs: Vec<OutRef> = (1..=40u32)
@@ -1341,33 +1511,13 @@ pub fn run(ctx: &Ctx) -> HResult<()> {
 		.collect();
 	LIB.prefetch(&cbs);
 
-	// ---- A
+	// ---- A (child processes: grin serialises all libsecp work on one process-wide mutex)
 	let t0 = std::time::Instant::now();
-	let cases = ctx.n(48, 720);
-	let fl = pbt_par(ctx, "A", cases, 16, strat_a, init_thread, |c, counting| {
-		let mut at = None;
-		check_a(ctx, c, counting, &mut at)
-	});
-	if let Some(fl) = fl {
-		// narrow to the failing (kind, path) when it fails in isolation
-		let mut at = None;
-		let _ = catch(|| check_a(ctx, &fl.value, false, &mut at));
-		let mut reported = false;
-		if let Some(o) = at {
-			let mut c = fl.value.clone();
-			c.only = Some(o);
-			let mut at2 = None;
-			if let Ok(Err(f)) | Err(f) = catch(|| check_a(ctx, &c, false, &mut at2)) {
-				ctx.report("A", &f.sig, serde_json::to_value(&c).unwrap(), &f.msg);
-				reported = true;
-			}
-		}
-		if !reported {
-			ctx.report("A", &fl.fail.sig, serde_json::to_value(&fl.value).unwrap(), &fl.fail.msg);
-		}
+	let cases = ctx.n(192, 2880);
+	if let Some((case, f)) = pbt_proc(ctx, "A", cases, 16) {
+		ctx.report("A", &f.sig, case, &f.msg);
 	}
 	ev.extra("A_wall_s", json!(t0.elapsed().as_secs_f64()));
-	ev.extra("A_reject_reasons", json!(*REASONS.lock().unwrap()));
 
 	// ---- B
 	let t0 = std::time::Instant::now();
@@ -1452,6 +1602,39 @@ pub fn run(ctx: &Ctx) -> HResult<()> {
 		}
 	}
 	Ok(())
+}
+
+/// one child process of part A: `cases` chains, single-threaded
+pub fn part(ctx: &Ctx, part: &str, seed: u64, cases: u32) -> Option<(Value, Fail)> {
+	init_global();
+	match part {
+		"A" => {
+			let r = run_part(ctx, seed, cases, &strat_a(), |c, counting| {
+				let mut at = None;
+				check_a(ctx, c, counting, &mut at)
+			});
+			r.map(|(v, f)| narrow_a(ctx, v, f))
+		}
+		_ => None,
+	}
+}
+
+/// narrow a failing chain case to the (height, kind, path) that fails, when it also fails in isolation
+fn narrow_a(ctx: &Ctx, v: Value, f: Fail) -> (Value, Fail) {
+	let Ok(case) = serde_json::from_value::<CaseA>(v.clone()) else {
+		return (v, f);
+	};
+	let mut at = None;
+	let _ = catch(|| check_a(ctx, &case, false, &mut at));
+	if let Some(o) = at {
+		let mut c = case.clone();
+		c.only = Some(o);
+		let mut at2 = None;
+		if let Ok(Err(f2)) | Err(f2) = catch(|| check_a(ctx, &c, false, &mut at2)) {
+			return (serde_json::to_value(&c).unwrap_or(v), f2);
+		}
+	}
+	(v, f)
 }
 
 pub fn replay(ctx: &Ctx, part: &str, case: &Value) -> PResult {
